@@ -32,6 +32,11 @@ impl Strategy {
 }
 
 pub struct Shared {
+    /// set by the simulated runtime right before a scheduling point: "the current thread is about
+    /// to block for a while" (a large write to a full pipe) — the scheduler then keeps it off the
+    /// CPU for that many decisions as long as another thread can run
+    pub stall_request: Mutex<Option<usize>>,
+    pub stalls_started: std::sync::atomic::AtomicU64,
     pub choices: Mutex<Vec<u32>>,
     /// a replayed choice was not runnable (the replay file does not fit the program)
     pub diverged: AtomicBool,
@@ -46,11 +51,13 @@ pub struct SimScheduler {
     change_points: Vec<usize>,
     lowest: i64,
     shared: Arc<Shared>,
+    /// (task, remaining decisions) of a thread stalled in a large write
+    stalled: Option<(usize, usize)>,
 }
 
 impl SimScheduler {
     pub fn new(strategy: Strategy, seed: u64) -> (SimScheduler, Arc<Shared>) {
-        let shared = Arc::new(Shared { choices: Mutex::new(vec![]), diverged: AtomicBool::new(false) });
+        let shared = Arc::new(Shared { stall_request: Mutex::new(None), stalls_started: std::sync::atomic::AtomicU64::new(0), choices: Mutex::new(vec![]), diverged: AtomicBool::new(false) });
         let mut rng = Rng::new(seed);
         let mut change_points = vec![];
         if let Strategy::Pct { depth, est_steps } = &strategy {
@@ -59,7 +66,7 @@ impl SimScheduler {
             }
         }
         (
-            SimScheduler { strategy, rng, started: false, step: 0, priorities: BTreeMap::new(), change_points, lowest: 0, shared: shared.clone() },
+            SimScheduler { strategy, rng, started: false, step: 0, priorities: BTreeMap::new(), change_points, lowest: 0, shared: shared.clone(), stalled: None },
             shared,
         )
     }
@@ -75,8 +82,27 @@ impl Scheduler for SimScheduler {
     }
 
     fn next_task(&mut self, runnable: &[&Task], current: Option<TaskId>, _is_yielding: bool) -> Option<TaskId> {
-        let ids: Vec<usize> = runnable.iter().map(|t| usize::from(t.id())).collect();
+        let mut ids: Vec<usize> = runnable.iter().map(|t| usize::from(t.id())).collect();
         let cur = current.map(usize::from);
+        if !matches!(self.strategy, Strategy::Replay(_)) {
+            if let (Some(n), Some(c)) = (self.shared.stall_request.lock().unwrap().take(), cur) {
+                self.stalled = Some((c, n));
+                self.shared.stalls_started.fetch_add(1, Ordering::SeqCst);
+            }
+            if let Some((task, left)) = self.stalled {
+                if left == 0 {
+                    self.stalled = None;
+                } else if ids.len() > 1 && ids.contains(&task) {
+                    ids.retain(|i| *i != task);
+                    self.stalled = Some((task, left - 1));
+                } else if !ids.contains(&task) {
+                    self.stalled = Some((task, left - 1));
+                } else {
+                    // nobody else can run: the stalled write completes
+                    self.stalled = None;
+                }
+            }
+        }
         let choice = match &self.strategy {
             Strategy::Random => ids[self.rng.usize_below(ids.len())],
             Strategy::Sticky { stay } => match cur {
